@@ -37,6 +37,7 @@ type ctx struct {
 	cont    func() string
 	// retRaw: pass on an already assembled result tuple of the enclosing function (after an inner loop returned)
 	retRaw func(v string) string
+	rho    string // inside a loop body: the type `.ret` carries (result of the enclosing function)
 }
 
 func (e *emitter) line(format string, a ...any) {
@@ -176,6 +177,14 @@ func (e *emitter) assigned(nodes ...ast.Node) []*types.Var {
 					}
 				}
 			case *ast.CallExpr:
+				if id, ok := s.Fun.(*ast.Ident); ok {
+					if pv, ok := e.info.Uses[id].(*types.Var); ok {
+						if st := e.fi.cbState[pv]; st != nil && !seen[st] {
+							seen[st] = true
+							out = append(out, st)
+						}
+					}
+				}
 				callee, lib := e.g.calleeOf(e.fi.pkg, s)
 				if callee != nil {
 					for i, a := range e.g.callArgs(e.fi.pkg, s, callee) {
@@ -239,7 +248,7 @@ func (g *gen) emitAll(w io.Writer, repo string) {
 		for _, f := range si.fields {
 			fmt.Fprintf(w, "  %s : %s\n", leanField(f.Name()), g.typeOfVar(fi0(g), f))
 		}
-		fmt.Fprintf(w, "deriving Repr, DecidableEq\n\n")
+		fmt.Fprintf(w, "deriving Repr, DecidableEq, Inhabited\n\n")
 	}
 	for _, fi := range sorted {
 		pos := g.fset.Position(fi.decl.Pos()).Filename
@@ -270,6 +279,14 @@ func (e *emitter) paramUsed(v *types.Var) bool {
 func (e *emitter) function() {
 	fi := e.fi
 	var binders []string
+	if tps := fi.obj.Type().(*types.Signature).TypeParams(); tps != nil {
+		for i := 0; i < tps.Len(); i++ {
+			tp := tps.At(i)
+			if e.g.leanType(fi.decl, tp) == tp.Obj().Name() {
+				binders = append(binders, fmt.Sprintf("{%s : Type} [Inhabited %s]", tp.Obj().Name(), tp.Obj().Name()))
+			}
+		}
+	}
 	for _, f := range fi.opaqueFields {
 		n := fi.opaqueRecv.Name() + "_" + f.Name()
 		e.used[n] = true
@@ -280,6 +297,21 @@ func (e *emitter) function() {
 			if e.paramUsed(p) {
 				e.g.fail(fi.decl, "parameter %s of type %s is used", p.Name(), p.Type())
 			}
+			continue
+		}
+		if st := fi.cbState[p]; st != nil {
+			sig := p.Type().Underlying().(*types.Signature)
+			parts := []string{"σ"}
+			for i := 0; i < sig.Params().Len(); i++ {
+				parts = append(parts, e.g.leanType(fi.decl, sig.Params().At(i).Type()))
+			}
+			res := []string{"σ"}
+			for i := 0; i < sig.Results().Len(); i++ {
+				res = append(res, e.g.leanType(fi.decl, sig.Results().At(i).Type()))
+			}
+			binders = append([]string{"{σ : Type}"}, binders...)
+			binders = append(binders, fmt.Sprintf("(%s : %s → Go.M (%s))", e.name(p), strings.Join(parts, " → "), strings.Join(res, " × ")))
+			binders = append(binders, fmt.Sprintf("(%s : σ)", e.name(st)))
 			continue
 		}
 		binders = append(binders, fmt.Sprintf("(%s : %s)", e.name(p), e.g.typeOfVar(fi.decl, p)))
@@ -295,12 +327,18 @@ func (e *emitter) function() {
 			rts = append(rts, e.g.typeOfVar(fi.decl, p))
 		}
 	}
+	for _, p := range fi.params {
+		if st := fi.cbState[p]; st != nil {
+			mutParams = append(mutParams, st)
+			rts = append(rts, "σ")
+		}
+	}
 	rt := tupleType(rts)
 	e.line("def %s %s : Go.M %s := do", fi.lean, strings.Join(binders, " "), rt)
 	e.ind++
 	var named []*types.Var
 	for _, r := range fi.results {
-		if r.Name() != "" && r.Name() != "_" {
+		if r.Name() != "" {
 			named = append(named, r)
 			e.line("let %s := %s", e.name(r), e.g.zero(fi.decl, r.Type()))
 		}
@@ -556,12 +594,11 @@ func (e *emitter) stateOf(vars []*types.Var, at ast.Node) (pat, typ string) {
 
 func (e *emitter) loopCtx(c ctx, st, sty string) (ctx, string) {
 	rty := strings.TrimPrefix(c.mtype, "Go.M ")
-	// the result type of the enclosing function is what `.ret` carries
-	if strings.HasPrefix(rty, "(Go.Ctl ") {
-		// nested loop: same ρ as the enclosing loop
-		rty = rty[strings.LastIndex(rty, " ρ:")+4 : len(rty)-1]
+	// the result type of the enclosing function is what `.ret` carries; a nested loop has the same ρ
+	if c.rho != "" {
+		rty = c.rho
 	}
-	inner := ctx{mtype: fmt.Sprintf("Go.M (Go.Ctl %s ρ:(%s))", sty, rty), named: c.named, resT: c.resT}
+	inner := ctx{named: c.named, resT: c.resT, rho: rty}
 	inner.mtype = fmt.Sprintf("Go.M (Go.Ctl %s %s)", sty, paren(rty))
 	inner.retVals = func(vals []string) string {
 		// the full tuple of the enclosing function, wrapped
@@ -720,7 +757,7 @@ func (e *emitter) rangeStmt(s *ast.RangeStmt, rest []ast.Stmt, c ctx, k func()) 
 	if s.Tok == token.ASSIGN {
 		e.g.fail(s, "range with assignment to existing variables")
 	}
-	xt := e.info.Types[s.X].Type.Underlying()
+	xt := under(e.info.Types[s.X].Type)
 	switch xt.(type) {
 	case *types.Slice, *types.Array:
 	default:
